@@ -965,7 +965,11 @@ c_status_t UMFindMessage(const UMessage * msg, const char * fieldName, uint32 id
       pointerToMsg += msgSize+sizeof(uint32);  /* move past the msg and the next msg's msg-length-field */
       idx--;
    }
-   return UMInitializeWithExistingData(retMessage, pointerToMsg, UMReadInt32(pointerToMsg-sizeof(uint32)));
+   {
+      const uint32 msgSize = UMReadInt32(pointerToMsg-sizeof(uint32));
+      if ((msgSize < MESSAGE_HEADER_SIZE)||(msgSize > (uint32)(afterEndOfField-pointerToMsg))) return CB_ERROR;  /* the sub-Message must fit inside its field */
+      return UMInitializeWithExistingData(retMessage, pointerToMsg, msgSize);
+   }
 }
 
 UBool UMGetBoolFromArray(UBoolArrayHandle handle, uint32 idx)
